@@ -8,6 +8,7 @@ import (
 
 	"github.com/reedom/convergen/pkg/option"
 
+	"verif/harness/gen"
 	"verif/harness/mdl"
 	"verif/harness/report"
 	"verif/harness/sx"
@@ -158,7 +159,7 @@ func checkC19(r *report.Report, tier string, seed int64) error {
 		maxLen = 3
 		nRe, nSeq = 60000, 20000
 	}
-	r.Rule = fmt.Sprintf("(1) library validation: strings.ToLower/EqualFold/Fields, regexp.QuoteMeta, ast.IsExported vs the Gallina versions on the strings below; (2) exhaustive small scope: all (pattern, path) pairs over a %d-symbol alphabet (mixed case, dot, ſ/s, σ/ς/Σ, İ/i/ı, K/k/Kelvin, É/é) up to length %d (sampled at length 3) x both case rules for IdentMatcher and plain PatternMatcher; (3) %d random regexps from the Re.v grammar and a malformed stream (validity must agree with regexp.Compile) x random subjects x both rules; (4) %d query sequences alternating the case rule on one matcher. Implementation = exported option API (in-process, with recover). non-trivial = the pattern compiles and at least one answer is a match or the two case rules answer differently; distinct by (pattern, subjects, rules)", len(c19Alphabet), maxLen, nRe, nSeq)
+	r.Rule = fmt.Sprintf("(1) library validation: strings.ToLower/EqualFold/Fields, regexp.QuoteMeta, ast.IsExported vs the Gallina versions on the strings below; (2) exhaustive small scope: all (pattern, path) pairs over a %d-symbol alphabet (mixed case, dot, ſ/s, σ/ς/Σ, İ/i/ı, K/k/Kelvin, É/é) up to length %d (sampled at length 3) x both case rules for IdentMatcher and plain PatternMatcher; (3) %d random regexps from the Re.v grammar and a malformed stream (validity must agree with regexp.Compile) x random subjects x both rules; (4) %d query sequences alternating the case rule on one matcher; (5) the matchers at their call sites: generated packages with :skip patterns and :map/:conv/:literal destinations that differ from a field name only in case, under both case rules (pipeline correspondence + an oracle on the real output). Implementation = exported option API (in-process, with recover). non-trivial = the pattern compiles and at least one answer is a match or the two case rules answer differently; distinct by (pattern, subjects, rules)", len(c19Alphabet), maxLen, nRe, nSeq)
 
 	// (1) library validation
 	strs := c19Strings(2, c19Alphabet)
@@ -411,6 +412,17 @@ func checkC19(r *report.Report, tier string, seed int64) error {
 			r.Mismatch(report.Mismatch{Correspondence: "Matcher.pm_match (Re.v) vs option.PatternMatcher", Case: desc, Model: m.String(), Impl: fmt.Sprint(impl)})
 		}
 	}
+	// (5) the matchers at their call sites in the builder: destinations of :map/:conv/:literal compare
+	// case-sensitively whatever the case rule; :skip patterns follow the rule
+	bopt := gen.DefaultOptions()
+	bopt.WellFormed = true
+	bopt.Explicit = 1.4
+	bopt.Hooks = 0
+	bopt.MaxInterfaces = 1
+	if err := pipelineCheck(r, "C19", seed, tierN(tier, 64, 2000), bopt, nil,
+		func(cr *caseRun) bool { return cr.C.Features["explicit-target-case-variant"]+cr.C.Features["skip-case"] > 0 }, c19BuilderOracle); err != nil {
+		return err
+	}
 	// replay files for violations: one text file per signature
 	seen := map[string]bool{}
 	for i := range r.Violations {
@@ -421,6 +433,65 @@ func checkC19(r *report.Report, tier string, seed int64) error {
 		}
 	}
 	return nil
+}
+
+// c19BuilderOracle: a :map/:conv/:literal whose destination differs from a field's name only in case
+// addresses no field: that field must not receive the notation's source.
+func c19BuilderOracle(cr *caseRun) [][2]string {
+	if cr.Impl.Status != 0 || !cr.Impl.HasOut {
+		return nil
+	}
+	var vs [][2]string
+	funcs := genFuncsOf(cr)
+	for _, it := range cr.C.Interfaces {
+		for _, m := range it.Methods {
+			gf, ok := funcs[m.Name]
+			if !ok {
+				continue
+			}
+			exact := map[string]bool{}
+			for _, fd := range cr.C.Struct[m.DstType] {
+				exact[fd.Name] = true
+			}
+			for _, n := range m.Notations {
+				f := strings.Fields(n)
+				var target, mark string
+				switch {
+				case len(f) == 3 && f[0] == ":map" && f[1] == "SpareInt":
+					target, mark = f[2], ".SpareInt"
+				case len(f) == 4 && f[0] == ":conv" && f[1] == "localConv" && f[2] == "SpareInt":
+					target, mark = f[3], "localConv("
+				default:
+					continue
+				}
+				if exact[target] || strings.Contains(target, ".") {
+					continue
+				}
+				for _, fd := range cr.C.Struct[m.DstType] {
+					if !strings.EqualFold(fd.Name, target) {
+						continue
+					}
+					// no other notation may address the field exactly with the same source
+					other := false
+					for _, n2 := range m.Notations {
+						f2 := strings.Fields(n2)
+						if len(f2) >= 3 && f2[len(f2)-1] == fd.Name && (f2[0] == ":map" || f2[0] == ":conv") {
+							other = true
+						}
+					}
+					if other {
+						continue
+					}
+					for _, e := range gf.Entries {
+						if e.Kind == "assign" && strings.HasSuffix(e.Path, "."+fd.Name) && strings.Count(e.Path, ".") == 1 && strings.Contains(e.RHS, mark) {
+							vs = append(vs, [2]string{"explicit-destination-compared-case-insensitively", fmt.Sprintf("%s: notation %q addresses %q, yet field %s got %s", m.Name, n, target, fd.Name, e.Raw)})
+						}
+					}
+				}
+			}
+		}
+	}
+	return vs
 }
 
 func isExported(s string) bool {
